@@ -4,7 +4,11 @@ package main
 // operation mix; the race detector reports any unsynchronised access inside package env.
 
 import (
+	"fmt"
+	"os"
+	"runtime"
 	"sync"
+	"time"
 
 	"github.com/mattn/anko/env"
 )
@@ -33,7 +37,18 @@ func c13Race(seed uint64, n int) error {
 				}
 			}()
 		}
-		wg.Wait()
+		done := make(chan struct{})
+		go func() { wg.Wait(); close(done) }()
+		select {
+		case <-done:
+		case <-time.After(20 * time.Second):
+			// no operation of package env waits for anything but the scope's lock: a round that does not
+			// end is a deadlock among the environment operations themselves
+			buf := make([]byte, 1<<16)
+			buf = buf[:runtime.Stack(buf, true)]
+			fmt.Printf("DEADLOCK round=%d threads=%d\n%s\n", round, nt, buf)
+			os.Exit(67)
+		}
 	}
 	return nil
 }
